@@ -258,19 +258,20 @@ def deliverLoop (base : Nat) : Nat → State → Nat → Nat → List (List Nat)
         | .ok cb =>
           let delta := pidSub seq cb
           if sl.cpl = 0 ∨ sl.cpl > delta then
-            match sl.data with
-            | none => .error .unwrap
-            | some data =>
-              let s := setSlot s i { sl with data := none, dataFlag := false }
-              match s.chans[sl.chan]? with
-              | none => .error .index
-              | some ch =>
-                if ch.count = 0 then .error .overflow else
-                let s := { s with chans := s.chans.set sl.chan { ch with count := ch.count - 1 } }
-                let s := if ch.count - 1 = 0 then { s with readyFlags := s.readyFlags.set sl.chan false } else s
-                match setChannelBase s sl.chan (pidAdd seq 1) with
-                | .error t => .error t
-                | .ok s => deliverLoop base fuel s (pidAdd seq 1) endId (out ++ [data])
+            -- a packet which exceeded the receive allocation has no data: passed over, not delivered
+            let out := match sl.data with
+              | none => out
+              | some data => out ++ [data]
+            let s := setSlot s i { sl with data := none, dataFlag := false }
+            match s.chans[sl.chan]? with
+            | none => .error .index
+            | some ch =>
+              if ch.count = 0 then .error .overflow else
+              let s := { s with chans := s.chans.set sl.chan { ch with count := ch.count - 1 } }
+              let s := if ch.count - 1 = 0 then { s with readyFlags := s.readyFlags.set sl.chan false } else s
+              match setChannelBase s sl.chan (pidAdd seq 1) with
+              | .error t => .error t
+              | .ok s => deliverLoop base fuel s (pidAdd seq 1) endId out
           else
             deliverLoop base fuel { s with readyFlags := s.readyFlags.set sl.chan false } (pidAdd seq 1) endId out
     else deliverLoop base fuel s (pidAdd seq 1) endId out
@@ -314,6 +315,7 @@ def resyncLoop : Nat → State → Nat → Nat → R Nat
 
 /-- `resynchronize(sender_next_id)`. -/
 def resynchronize (s : State) (senderNext : Nat) : R State :=
+  if senderNext % 2^32 % PACKET_ID_SPAN ≠ senderNext then .ok s else     -- `!packet_id::is_valid(..)`
   if pidSub senderNext s.baseId > s.windowSize then .ok s else
   match resyncLoop loopFuel s s.baseId senderNext with
   | .error t => .error t
